@@ -51,3 +51,15 @@ Definition ssig_shwpkh (e : env) (k : bytes) : bytes := DescWrapModel.push_slice
 
 (* the control block never starts with the annex tag 0x50 (its first byte is leaf version | parity) *)
 Definition not_annex (cb : bytes) : Prop := match cb with 80 :: _ => False | _ => True end.
+
+(* ---- key-only types built without witness_to_scriptsig ----
+   bare.rs Pkh::get_satisfaction(_mall):
+     script_sig = Builder::new().push_slice(sig.serialize()).push_key(&pk)    (push_key = push_slice of the
+     33- or 65-byte serialisation); witness = []
+   Pkh::script_pubkey = ScriptBuf::new_p2pkh(hash160(pk)) *)
+Definition spk_pkh (e : env) (k : bytes) : bytes := DescWrapModel.new_p2pkh (e_hash160 e k).
+Definition ssig_pkh (sg k : bytes) : bytes := DescWrapModel.push_slice sg ++ DescWrapModel.push_slice k.
+
+(* tr/mod.rs best_tap_spend, key path: the stack is the single Schnorr signature for the OUTPUT key,
+   scriptSig empty *)
+Definition wit_tr_keypath (sg : bytes) : list bytes := [sg].
